@@ -591,3 +591,150 @@ Proof.
   destruct (dec_enc_fields _ vals bs rest Hwf He) as [Hd Hl].
   unfold spec_dec_eb_descriptor, spec_enc_eb_descriptor. repeat split; try assumption; now rewrite Hl.
 Qed.
+
+(* ------------------------------------------------------------------------------------------ *)
+(* the record length of the header: undocumented trailing bytes, resolution of a file's layout  *)
+(* ------------------------------------------------------------------------------------------ *)
+Theorem resolve_spec ps std d hv : resolve_record ps std d hv = spec_resolve_record ps std d hv.
+Proof.
+  unfold resolve_record, spec_resolve_record. destruct hv; cbn [andb negb];
+  repeat match goal with |- context [if ?c then _ else _] => destruct c eqn:? end;
+  try reflexivity; try (exfalso; lia); repeat f_equal; lia.
+Qed.
+
+Theorem resolve_fills ps std d hv u t : spec_resolve_record ps std d hv = Ok (u, t) ->
+  0 <= t /\ std + (if u then d else 0) + t = ps.
+Proof.
+  unfold spec_resolve_record. intros H.
+  destruct (hv && negb (ps =? std)).
+  - destruct (std + d <=? ps) eqn:E; [|discriminate]. injection H as <- <-. lia.
+  - destruct (std <=? ps) eqn:E; [|discriminate]. injection H as <- <-. lia.
+Qed.
+
+Lemma undoc_spec t : gen_undoc_items t = Some (undoc_items t).
+Proof. reflexivity. Qed.
+
+Lemma undoc_ok t : forallb (fun it : item => type_ok (snd it)) (undoc_items t) = true.
+Proof. unfold undoc_items. now apply forallb_repeat. Qed.
+
+Lemma total_width_repeat (it : item) n : total_width (repeat it n) = Z.of_nat n * width (snd it).
+Proof.
+  induction n as [|n IH]; [reflexivity|]. cbn [repeat]. unfold total_width in *. cbn [fold_right]. rewrite IH. lia.
+Qed.
+
+Lemma undoc_width t : 0 <= t -> total_width (undoc_items t) = t.
+Proof. intros H. unfold undoc_items. rewrite total_width_repeat. cbn [snd]. change (width uchar) with 1. lia. Qed.
+
+Theorem full_layout_rl f ebs t : 0 <= f <= 10 -> gen_point_layout_rl f ebs t = spec_point_layout_rl f ebs t.
+Proof.
+  intros H. destruct (std_layout_spec f H) as (its & Hs & Hg & Hn & Hw & _).
+  destruct eb_types_spec as [Ht _].
+  unfold gen_point_layout_rl, spec_point_layout_rl. rewrite Hs, Hg, Hn, Ht, undoc_spec.
+  destruct (eb_items_of spec_eb_types ebs) as [b|]; [|reflexivity].
+  destruct (0 <=? t); [|reflexivity].
+  rewrite (with_offsets_app its 0 (b ++ undoc_items t)), Z.add_0_l, Hw. reflexivity.
+Qed.
+
+Theorem spec_layout_rl_0 f ebs : spec_point_layout_rl f ebs 0 = spec_point_layout f ebs.
+Proof.
+  unfold spec_point_layout_rl, spec_point_layout. destruct (spec_items f); [|reflexivity].
+  destruct (eb_items_of spec_eb_types ebs); [|reflexivity]. cbn. now rewrite app_nil_r.
+Qed.
+
+Theorem spec_layout_rl_ok f ebs t L : 0 <= f <= 10 -> spec_point_layout_rl f ebs t = Some L -> layout_ok L = true.
+Proof.
+  intros H HL. destruct (std_layout_spec f H) as (its & Hs & _ & _ & _ & Hok).
+  unfold spec_point_layout_rl in HL. rewrite Hs in HL.
+  destruct (eb_items_of spec_eb_types ebs) as [b|] eqn:Eb; [|discriminate].
+  destruct (0 <=? t); [|discriminate]. injection HL as <-.
+  unfold layout_ok. apply with_offsets_contig. rewrite !forallb_app. apply andb_true_iff. split; [exact Hok|].
+  apply andb_true_iff. split; [now apply (eb_items_ok ebs)|apply undoc_ok].
+Qed.
+
+Theorem spec_layout_rl_len f ebs t its L : 0 <= f <= 10 -> eb_items_of spec_eb_types ebs = Some its ->
+  spec_point_layout_rl f ebs t = Some L -> 0 <= t /\ layout_len L = spec_record_length f + total_width its + t.
+Proof.
+  intros H Hb HL. destruct (std_layout_spec f H) as (a & Hs & _ & _ & Hw & _).
+  unfold spec_point_layout_rl in HL. rewrite Hs, Hb in HL. destruct (0 <=? t) eqn:E; [|discriminate]. injection HL as <-.
+  split; [lia|]. rewrite with_offsets_len, !total_width_app, Hw, undoc_width by lia. lia.
+Qed.
+
+Theorem record_layout_spec f ebs hv ps : 0 <= f <= 10 -> gen_record_layout f ebs hv ps = spec_record_layout f ebs hv ps.
+Proof.
+  intros H. destruct (std_layout_spec f H) as (its & _ & _ & Hn & _ & _).
+  destruct eb_types_spec as [Ht _].
+  unfold gen_record_layout, spec_record_layout. rewrite Ht, Hn.
+  destruct (eb_items_of spec_eb_types ebs) as [b|]; [|reflexivity].
+  rewrite resolve_spec. destruct (spec_resolve_record _ _ _ _) as [[u t]|e]; [|reflexivity].
+  now rewrite full_layout_rl.
+Qed.
+
+(* the records of the layout are exactly as long as the header says, whatever the VLR describes *)
+Theorem record_layout_fills f ebs hv ps L : 0 <= f <= 10 -> spec_record_layout f ebs hv ps = Ok L ->
+  layout_ok L = true /\ layout_len L = ps.
+Proof.
+  intros H HL. unfold spec_record_layout in HL.
+  destruct (eb_items_of spec_eb_types ebs) as [b|] eqn:Eb; [|discriminate].
+  destruct (spec_resolve_record ps (spec_record_length f) (total_width b) hv) as [[u t]|e] eqn:Er; [|discriminate].
+  destruct (spec_point_layout_rl f (if u then ebs else []) t) as [L'|] eqn:EL; [|discriminate]. injection HL as <-.
+  split; [eapply spec_layout_rl_ok; eauto|].
+  destruct (resolve_fills _ _ _ _ _ _ Er) as [Ht Hsum].
+  destruct u.
+  - destruct (spec_layout_rl_len f ebs t b L' H Eb EL) as [_ ->]. lia.
+  - destruct (spec_layout_rl_len f [] t [] L' H eq_refl EL) as [_ ->]. cbn [total_width fold_right]. lia.
+Qed.
+
+Lemma dec_point_len L bs vals : dec_point L bs = Ok vals -> len bs = layout_len L.
+Proof. unfold dec_point. destruct (len bs =? layout_len L) eqn:E; [intros _; lia|discriminate]. Qed.
+
+(* a file's records, laid out by laspy from (format, Extra Bytes VLR, record length): the specification's layout, and what
+   either side encodes over it the other decodes, in records of exactly [ps] bytes *)
+Theorem record_both_directions f ebs hv ps L : 0 <= f <= 10 -> gen_record_layout f ebs hv ps = Ok L ->
+  spec_record_layout f ebs hv ps = Ok L /\ layout_ok L = true /\ layout_len L = ps
+  /\ (forall vals bs, enc_point L vals = Ok bs -> dec_point L bs = Ok vals /\ len bs = ps)
+  /\ (forall bytes, len bytes = ps -> bytes_ok bytes = true ->
+        exists vals, dec_point L bytes = Ok vals /\ enc_point L vals = Ok bytes).
+Proof.
+  intros H HL. rewrite (record_layout_spec f ebs hv ps H) in HL.
+  destruct (record_layout_fills f ebs hv ps L H HL) as [Hok Hlen].
+  repeat split; try assumption.
+  - eapply dec_enc_point; eauto.
+  - erewrite dec_point_len; [exact Hlen|]. eapply dec_enc_point; eauto.
+  - intros bytes Hb Hbo. exists (dec_at L bytes).
+    assert (Hd : dec_point L bytes = Ok (dec_at L bytes)) by (apply dec_point_total; [lia|assumption]).
+    split; [exact Hd|]. eapply enc_dec_point; eauto.
+Qed.
+
+(* with the trailing bytes given: each side reads what the other wrote *)
+Theorem spec_reads_laspy_rl f ebs t vals bs : 0 <= f <= 10 ->
+  gen_enc_point_rl f ebs t vals = Ok bs -> spec_dec_point_rl f ebs t bs = Ok vals.
+Proof.
+  intros H He. unfold gen_enc_point_rl, spec_dec_point_rl in *. rewrite (full_layout_rl f ebs t H) in He.
+  destruct (spec_point_layout_rl f ebs t) as [L|] eqn:EL; [|discriminate]. cbn [with_layout] in *.
+  eapply dec_enc_point; [eapply spec_layout_rl_ok; eauto|exact He].
+Qed.
+
+Theorem laspy_reads_spec_rl f ebs t vals bs : 0 <= f <= 10 ->
+  spec_enc_point_rl f ebs t vals = Ok bs -> gen_dec_point_rl f ebs t bs = Ok vals.
+Proof.
+  intros H He. unfold spec_enc_point_rl, gen_dec_point_rl in *. rewrite (full_layout_rl f ebs t H).
+  destruct (spec_point_layout_rl f ebs t) as [L|] eqn:EL; [|discriminate]. cbn [with_layout] in *.
+  eapply dec_enc_point; [eapply spec_layout_rl_ok; eauto|exact He].
+Qed.
+
+(* ---- legacy counts of a 1.4 header: laspy writes the constant 0 into bytes 107..130, which the rule allows for every
+   point format and count ---- *)
+Theorem legacy_counts :
+  map snd (firstn 6 (skipn 15 (gen_hdr_write 4))) = repeat "zero"%string 6
+  /\ map (fun x => fst (fst x)) (firstn 6 (skipn 15 (gen_hdr_write 4))) = repeat KUInt 6
+  /\ layout_width (firstn 15 (gen_hdr_write 4)) = 107 /\ layout_width (firstn 21 (gen_hdr_write 4)) = 131
+  /\ (forall fmt count, spec_legacy_ok fmt count 0 = true)
+  /\ (forall fmt count legacy, spec_legacy_ok fmt count legacy = true -> 6 <= fmt -> legacy = 0).
+Proof.
+  split; [vm_compute; reflexivity|]. split; [vm_compute; reflexivity|].
+  split; [vm_compute; reflexivity|]. split; [vm_compute; reflexivity|]. split.
+  - intros fmt count. unfold spec_legacy_ok. rewrite Z.eqb_refl. reflexivity.
+  - intros fmt count legacy Hl Hf. unfold spec_legacy_ok in Hl.
+    apply orb_true_iff in Hl as [Hl|Hl]; [lia|].
+    apply andb_true_iff in Hl as [Hl _]. apply andb_true_iff in Hl as [Hl _]. lia.
+Qed.
